@@ -266,9 +266,17 @@ fn esc(s: &str) -> String {
     o
 }
 
+thread_local! {
+    /// true while code under test runs inside `catch` (its panics are data, not harness failures)
+    pub static IN_CATCH: std::cell::Cell<bool> = const { std::cell::Cell::new(false) };
+}
+
 /// Run `f`, turning a panic into data.
 pub fn catch<T>(f: impl FnOnce() -> T) -> Result<T, String> {
-    match catch_unwind(AssertUnwindSafe(f)) {
+    let prev = IN_CATCH.with(|c| c.replace(true));
+    let r = catch_unwind(AssertUnwindSafe(f));
+    IN_CATCH.with(|c| c.set(prev));
+    match r {
         Ok(v) => Ok(v),
         Err(p) => {
             let msg = if let Some(s) = p.downcast_ref::<&str>() {
